@@ -14,6 +14,42 @@ CHECKS = {
    note="Bounded constants (objects, reference counts); scripted random() never repeats a check word; TLC, clang ASan/UBSan and the harness projection (h_hdb.c) are trusted.",
    technique="TLA+ model checking (TLC) + model-generated histories replayed on the C code + TLC trace validation",
    design_ref="DESIGN.md section 4, C20"),
+ "C07": dict(
+   text="spec/RingAbs.tla states the capacity contract and FIFO semantics of the ring buffer (must-accept rule with 16 bytes overhead, "
+        "refused write and too-small read change nothing, reads return the accepted chunks byte for byte); TLC checks it exhaustively for "
+        "small constants. Binding: all operation sequences up to a fixed depth and long random walks of the model, at real sizes around "
+        "page multiples, lengths 0..S+9 incl. non-multiples of 4, payloads made of the ring's own marker words, with and without the "
+        "semaphore, are executed on real rings (ASan, inaccessible tail behind the mapping) and every return value and payload hash is "
+        "validated by TLC (RingAbsTrace.tla).",
+   note="Sequential caller; payload equality via 30-bit FNV hash; sizes and lengths are sampled around page multiples, not all values; TLC, ASan and h_rb_seq.c trusted.",
+   technique="TLA+ model checking (TLC) + model-generated histories replayed on the C code + TLC trace validation",
+   design_ref="DESIGN.md section 4, C07"),
+ "C11": dict(
+   text="RingAbs.tla in overwrite mode: every write up to the requested size succeeds and the readable contents are an unbroken run of "
+        "the newest chunks, at least the guaranteed suffix; the number of chunks dropped is left open and decided by later reads "
+        "(the trace specification branches). Same binding as C07 with overwriting rings, each history ending with a full drain.",
+   note="Ring-level binding (qb_rb_* with QB_RB_FLAG_OVERWRITE, incl. alloc+commit with a larger reservation as the blackbox does); the blackbox dump/print path itself is covered under C15; sequential caller.",
+   technique="TLA+ model checking (TLC) + model-generated histories replayed on the C code + TLC trace validation (branching on unobserved drops)",
+   design_ref="DESIGN.md section 4, C11"),
+ "C08": dict(
+   text="spec/Loop.tla is a property-level specification of qb_loop: registrations with status, the environment (clock, ready "
+        "descriptors, signals, kernel poll set), one action per API call, callback invocation and poll call. It fixes WHAT may be "
+        "dispatched (exactly-once jobs/timers, callbacks owed per readiness/delivery, nothing after a successful delete, stale handles "
+        "refused, FIFO jobs per priority) and leaves WHEN open. Binding: seeded random programs and directed scenarios (API calls from "
+        "inside callbacks, self/other deletion, slot and descriptor-number reuse, signals) run on the real loop under a virtual clock and "
+        "scripted epoll; TLC validates every recorded API result, callback and poll call (LoopTrace.tla) and evaluates the invariants at every step.",
+   note=loopnote, technique=looptech, design_ref="DESIGN.md section 4, C08"),
+ "C09": dict(
+   text="Loop.tla's timer rules: a timer callback only at or after its expiry, same-priority timers in expiry order, every poll timeout "
+        "finite and within the slack of the earliest expiry while a timer is pending, is-running/remaining consistent with pending. Time is a "
+        "3-limb integer so the full 64-bit nanosecond range (2^31 ms, 2^32 ms, 2^63, 2^64-1) is validated exactly. Binding as C08 with "
+        "timer-heavy programs, partial sleeps and heap add/delete histories.",
+   note=loopnote, technique=looptech, design_ref="DESIGN.md section 4, C09"),
+ "C10": dict(
+   text="Loop.tla's fairness rules, evaluated at every poll call of a recorded run: no priority level with work pending over three whole "
+        "iterations goes without a dispatch, and over saturated spans higher levels get at least as many turns. Binding as C08 with "
+        "saturating workloads (self re-adding jobs, always-ready descriptors, zero-delay timers at all three priorities, 20-45 iterations).",
+   note=loopnote, technique=looptech, design_ref="DESIGN.md section 4, C10"),
  "C17": dict(
    text="spec/Map.tla specifies the three map implementations as a dictionary with map-wide, per-key, recursive-prefix and "
         "value-release notifiers (per-implementation profile as a constant); TLC checks its invariants exhaustively for bounded "
